@@ -388,8 +388,13 @@ def run(ctx):
     nviol = 0
     for k, (d, lab, o, io) in enumerate(zip(docs, labels, outs, idouts)):
         t = jload(o)
+        if ('crash' in t or 'panic' in t) and not (d.startswith('@' + WITNESS) and not is_wit[k]
+                                                   and not os.path.basename(d).startswith(('F01', 'F02'))):
+            # every corpus file, generated document and witness of a FIXED defect parses today: a crash is a regression
+            # (e.g. a reference chain that is no longer finite); witnesses of other properties' open findings are exempt
+            ctx.violation("parsing crashed on %s: %s" % (lab, str(t)[:200]), dict(doc=d, op='dump', result=t))
+            continue
         if 'root' not in t:
-            # rejected, or the parser itself crashed (totality is C01's matter): nothing to check here
             hist['rejected'] += 1
             trees.append(None)
             ctx.note_case('rej/' + lab, nontrivial=False)
